@@ -29,11 +29,13 @@ NS = "NfcVerif.MonitorProps."
 GENERIC = ["NfcVerif.Monitor." + t for t in (
     "chk_sound", "monitor_sound", "demo_check", "notify_two_waiters_lost", "notifyAll_two_waiters_woken")]
 TCO = [NS + t for t in (
-    "tco_facts", "tco_discipline_ok", "dlc_discipline_ok", "raw_discipline_ok", "ldl_discipline_ok",
-    "tco_wait_sites", "tco_notify_sites", "tco_exemptions_used", "tco_no_lost_wakeup", "dlc_no_lost_wakeup",
-    "dlc_send_waits_in_a_loop", "tco_strict_rule1_fails", "tco_strict_notify_fails", "dlc_wake_trace")]
+    "tco_facts", "guard_tables", "reach_tables", "tco_discipline_ok", "dlc_discipline_ok", "raw_discipline_ok",
+    "ldl_discipline_ok", "tco_wait_sites", "tco_notify_sites", "tco_exemptions_used", "tco_no_lost_wakeup",
+    "dlc_no_lost_wakeup", "dlc_send_waits_in_a_loop", "tco_strict_rule1_fails", "tco_strict_notify_fails",
+    "dlc_wake_trace")]
 LLC = [NS + t for t in (
-    "llc_facts", "llc_discipline_ok", "llc_wait_sites", "llc_no_exemptions", "llc_no_lost_wakeup", "resolve_wake_trace")]
+    "llc_facts", "llc_discipline_ok", "llc_wait_sites", "llc_no_exemptions", "llc_no_lost_wakeup",
+    "llc_single_trivial", "resolve_thread_runs", "shutdown_thread_runs", "resolve_wake_trace")]
 BY_PROPERTY = {"C05": GENERIC + TCO, "C09": GENERIC + TCO + LLC}
 
 
@@ -256,6 +258,56 @@ def run(ck):
     return ok
 
 
+def doc_tables(progs):
+    """markdown: per-method table of both programs"""
+    L = []
+    for name in ("Tco", "Llc"):
+        p, res = progs[name]
+        L.append("### %s (`%s`): lock `%s` (%s), conditions %s\n" % (
+            name, p.cfg["file"], p.lock, "RLock" if p.reentrant else "Lock",
+            ", ".join("`%s`(%s)" % (c, l) for c, l in sorted(p.cvs.items()))))
+        L.append("| method | line | takes the lock | waits (condition, guard, reads) | notify | notify_all | writes | "
+                 "calls (by reference) |")
+        L.append("|---|---|---|---|---|---|---|---|")
+        for key in p.order:
+            if key[1] == "__init__":
+                continue
+            t = res[key]
+            fn = p.methods[key][0]
+            w, n, na, wr, calls, oth, lk = [], [], [], [], [], [], 0
+            for x in translate_mon.walk(t):
+                if x[0] == "wait":
+                    w.append("`%s` %s [%s]%s" % (x[2], x[3], ", ".join(x[4]), " timeout" if x[5] else ""))
+                elif x[0] == "notify":
+                    n.append(x[2])
+                elif x[0] == "notifyAll":
+                    na.append(x[2])
+                elif x[0] == "write":
+                    wr.append(x[2])
+                elif x[0] in ("call", "reenter"):
+                    calls.append(("%s.%s" % x[1]).replace("TransmissionControlObject", "TCO").replace(
+                        "DataLinkConnection", "DLC").replace("LogicalLinkController", "LLC").replace(
+                        "ServiceAccessPoint", "SAP").replace("ServiceDiscovery", "SD") + (" (re-entry)" if x[0] == "reenter" else ""))
+                elif x[0] == "other":
+                    oth.append(x[1])
+                elif x[0] == "withLock":
+                    lk += 1
+            if not (w or n or na or wr or lk or oth) and not calls:
+                continue
+
+            def u(l):
+                out = []
+                for i in l:
+                    if i not in out:
+                        out.append(i)
+                return ", ".join(out) or "-"
+            L.append("| `%s.%s` | %d | %s | %s | %s | %s | %s | %s |%s" % (
+                key[0], key[1], fn.lineno, "%dx" % lk if lk else "-", "<br>".join(w) or "-", u(n), u(na), u(wr), u(calls),
+                (" UNTRANSLATED: " + "; ".join(oth)) if oth else ""))
+        L.append("")
+    return "\n".join(L) + "\n"
+
+
 if __name__ == "__main__":
     repo = os.environ.get("NFCPY_REPO", "/repo")
     args = [a for a in sys.argv[1:] if not a.startswith("-")]
@@ -264,6 +316,14 @@ if __name__ == "__main__":
     tables = parse_tables() if os.path.exists(PROPS) else {n: {"write": set(), "wait": set(), "notify": set()} for n in ("Tco", "Llc")}
     if "--strict" in sys.argv:
         tables = {n: {"write": set(), "wait": set(), "notify": set()} for n in ("Tco", "Llc")}
+    if "--doc" in sys.argv:
+        progs, _, _ = translate_mon.translate(repo)
+        path = os.path.join(VERIF, "docs", "monitor.md")
+        doc = open(path).read()
+        a, b = "<!-- BEGIN GENERATED (harness/monitor.py --doc) -->", "<!-- END GENERATED -->"
+        doc = doc[:doc.index(a) + len(a)] + "\n" + doc_tables(progs) + doc[doc.index(b):]
+        open(path, "w").write(doc)
+        print("docs/monitor.md tables regenerated")
     d = diagnose(repo, tables=tables)
     for x in d:
         print("%s %-48s %s" % x)
